@@ -10,7 +10,11 @@ against the end tick is then at most |j|.
 from fractions import Fraction
 import math
 
-from ..poly import Sym, mk_func
+from ..poly import Sym, mk_func, Poly
+
+
+def poly_atom(a):
+    return Poly.atom(a)
 from ..interp import Interp, Hooks, Cmp, NotC
 from ..model import AnalysisError
 from .. import purity
@@ -111,6 +115,33 @@ def vertex():
     return Sym.const(Fraction(1, 2)) - V('accel') / V('jerk')
 
 
+def canon_sym(v, X):
+    """Roundings of c - X (c an integer) written as roundings of X: FLOOR(c - X) = c - CEIL(X),
+    CEIL(c - X) = c - FLOOR(X), ROUND(c - X) is left alone (ties)."""
+    if not isinstance(v, Sym):
+        return v
+    mapping = {}
+    for a in v.all_atoms():
+        if a[0] == 'f' and a[1] in ('FLOOR', 'CEIL') and len(a[2]) == 1:
+            c = a[2][0] + X
+            if c.is_const() and c.const_value().denominator == 1:
+                other = 'CEIL' if a[1] == 'FLOOR' else 'FLOOR'
+                mapping[a] = c - mk_func(other, X)
+    return v.subs(mapping) if mapping else v
+
+
+def canon_outcome(o, X):
+    from ..interp import Outcome, Cmp as _Cmp
+    st = o.state.copy()
+    path = []
+    for c, t in st.path:
+        if isinstance(c, _Cmp) and isinstance(c.a, Sym) and isinstance(c.b, Sym):
+            c = _Cmp(c.op, canon_sym(c.a, X), canon_sym(c.b, X))
+        path.append((c, t))
+    st.path = tuple(path)
+    return Outcome(o.kind, canon_sym(o.value, X), st)
+
+
 class TickHooks(Hooks):
     """Decides `tick == 0` inside the inlined rate helper from facts already on the path."""
 
@@ -122,11 +153,12 @@ class TickHooks(Hooks):
             nc = motion.norm_path_cond(c, t)
             if nc is not None:
                 f.add(*nc)
-        e = cond.a
+        e = canon_sym(cond.a, vertex())
         res = None
         if e == V('time') or e == -V('time'):
-            if f.time_lo is not None and f.time_lo >= 1:
-                res = False
+            # the property's domain is T >= 1 (a T3 move lasts at least one tick): the "time == 0"
+            # convention of rate_t3 is never reached from a valid move
+            res = False
         else:
             at = e.as_atom() or (-e).as_atom()
             if at is not None and at[0] == 'f' and at[1] in ('CEIL', 'FLOOR', 'ROUND') \
@@ -168,6 +200,7 @@ def run(ck, prog, tier):
     T = V('time')
     X = vertex()
     outs = Interp(prog, TickHooks()).run(fn, [V(p) for p in fn.params])
+    outs = [canon_outcome(o, X) for o in outs]
     ck.saw('paths', '%d return paths' % len(outs))
     from ..report import Trial
     trial = Trial(ck)
@@ -289,10 +322,23 @@ def symbolic(ck, prog, fn, outs, X, T):
             continue
         n_paths += 1
         f = Facts(X, T)
+        below = {}        # ABS atom -> set of ABS atoms the path proves it <= (selection tests)
         for c, t in o.state.path:
             nc = motion.norm_path_cond(c, t)
             if nc is None:
                 raise AnalysisError('max_rate_t3: non-numeric branch condition %r' % (c,))
+            e, op = nc
+            abs_atoms = [a for a in e.atoms() if a[0] == 'f' and a[1] in ('ABS', 'MAX')]
+            if len(abs_atoms) == 2 and op in ('<', '<=', '>', '>='):
+                a1, a2 = abs_atoms
+                if e == Sym(poly_atom(a1)) - Sym(poly_atom(a2)):
+                    lo, hi = (a1, a2) if op in ('<', '<=') else (a2, a1)
+                    below.setdefault(lo, set()).add(hi)
+                    continue
+                if e == Sym(poly_atom(a2)) - Sym(poly_atom(a1)):
+                    lo, hi = (a2, a1) if op in ('<', '<=') else (a1, a2)
+                    below.setdefault(lo, set()).add(hi)
+                    continue
             f.add(*nc)
         pdesc = 'path#%d' % idx
         # divisions by a non-constant denominator need a non-zero fact
@@ -333,7 +379,38 @@ def symbolic(ck, prog, fn, outs, X, T):
                   'peak' % (cnd,), fn.loc(), key='max_rate_t3::candidate')
             if tick is not None:
                 ticks.append(tick)
-        names = [t[0] for t in ticks]
+        # values the path proves <= the report (the function compared them and kept the larger)
+        top = set()
+        for cnd in cands:
+            a = cnd.as_atom()
+            if a is not None:
+                top.add(a)
+                if a[0] == 'f' and a[1] == 'MAX':
+                    top.update(x.as_atom() for x in a[2] if x.as_atom() is not None)
+        covered, changed = set(), True
+        while changed:
+            changed = False
+            for lo, his in below.items():
+                if lo not in covered and lo not in top and any(
+                        h in top or h in covered for h in his):
+                    covered.add(lo)
+                    changed = True
+        for a in covered:
+            parts = [a] if a[1] == 'ABS' else [x.as_atom() for x in a[2] if x.as_atom() is not None]
+            for pa in parts:
+                if pa is None or pa[1] != 'ABS':
+                    continue
+                body = motion.strip_int(pa[2][0])
+                options = [('1', Sym.const(1)), ('T', T)]
+                for b in body.all_atoms() | pa[2][0].all_atoms():
+                    if b[0] == 'f' and b[1] in ('CEIL', 'FLOOR', 'ROUND') and any(
+                            x[0] == 'v' and x[1] in ('accel', 'jerk') for x in b[2][0].all_atoms()):
+                        options.append((b[1], Sym.func(b[1], *b[2])))
+                for name, t in options:
+                    if body == motion.rate_t3_oracle(t):
+                        ticks.append(('dominated:' + name, t))
+                        break
+        names = [t[0].split(':')[-1] for t in ticks]
         short = f.time_hi is not None and f.time_hi <= 1
         # D2 end points
         if short:
@@ -355,8 +432,8 @@ def symbolic(ck, prog, fn, outs, X, T):
                   'vertex 1/2 - accel/jerk' % (f.other[0][0],), fn.loc(),
                   key='max_rate_t3::vertex-quantity')
             continue
-        mids = [t for t in ticks if t[0] in ('CEIL', 'FLOOR', 'ROUND')]
-        for name, t in mids:
+        mids = [t for t in ticks if t[0].split(':')[-1] in ('CEIL', 'FLOOR', 'ROUND')]
+        for name, t in [m for m in mids if not m[0].startswith('dominated:')]:
             arg = t.as_atom()[2][0]
             ck.ob('C17-D3-vertex', 'max_rate_t3::t_mid-is-vertex[%s]' % pdesc, arg == X,
                   'the interior tick is a rounding of %r; the vertex of the rate parabola is '
